@@ -54,6 +54,8 @@ func runC07(c *core.Ctx) {
 	c.RuleDoc("R07.2", "generic Sub view reaches its parent only through Mount's (FS, subPath) pair")
 	c.RuleDoc("R07.3", "Sub view error translation uses the same pair")
 	c.RuleDoc("R07.6", "prefix tests against a view's root (os.FS root, mount translation) are on path-element boundaries")
+	c.RuleDoc("R07.8", "no method of a view type writes a field of its receiver")
+	c.RuleDoc("R07.9", "the error translator compares the failing path only within its own namespace (= R05.11)")
 	c.RuleDoc("R07.7", "a helper resolves a route once and leaves the next decision to the resolved file system")
 	c.RuleDoc("R07.5", "every capability-probing helper has a MountFS branch (the generic Sub view is a MountFS)")
 	c.RuleDoc("R07.4", "no file system handed out derives from a one-time route resolution Mount(dir)")
@@ -67,6 +69,9 @@ func runC07(c *core.Ctx) {
 		r06EveryHelperRoutes(c, p, "R07.5")
 		boundaryTests(c, p, "R07.6", "os", "")
 		r07SingleResolution(c, p)
+		r07ViewsAreValues(c, p)
+		// R07.9 (= R05.11): the error translator never confuses the inner path with the caller's name
+		c.WithAlias(map[string]string{"R05.11": "R07.9"}, func() { r05NamespaceTyped(c, p) })
 	}
 	c.Floor("R07.1", 5)
 	c.Floor("R07.2", 2)
@@ -75,6 +80,8 @@ func runC07(c *core.Ctx) {
 	c.Floor("R07.5", 15)
 	c.Floor("R07.6", 1)
 	c.Floor("R07.7", 15)
+	c.Floor("R07.8", 10)
+	c.Floor("R07.9", 2)
 }
 
 // joinArgs returns the elements of the variadic slice of a path.Join call.
@@ -660,5 +667,43 @@ func r07SingleResolution(c *core.Ctx, p *load.Program) {
 	}
 	if n < 15 {
 		c.Hard("anchor: Mount invocations in the helpers (found %d)", n)
+	}
+}
+
+// r07ViewsAreValues (R07.8): the view types (the generic Sub view, the OS-backed FS) are fixed at construction: no
+// method stores into a field of its receiver. A value cached lazily in the view (the OS path of the root, converted
+// on first use) is copied into every view derived from it afterwards, so Sub(usedParent, dir) resolves names against
+// the parent's directory.
+func r07ViewsAreValues(c *core.Ctx, p *load.Program) {
+	cnt := 0
+	for _, tn := range [][2]string{{"", "subFS"}, {"os", "FS"}} {
+		n := p.Named(tn[0], tn[1])
+		if n == nil {
+			c.Hard("anchor: %s.%s", tn[0], tn[1])
+			continue
+		}
+		for _, fn := range methodList(p, n) {
+			recv := recvParam(fn)
+			if recv == nil {
+				continue
+			}
+			cnt++
+			key := fname(fn) + "|receiver-not-written"
+			bad := ""
+			ssax.InstrsDeep(fn, func(_ *ssa.Function, ins ssa.Instruction) {
+				st, ok := ins.(*ssa.Store)
+				if !ok {
+					return
+				}
+				if fa, ok := st.Addr.(*ssa.FieldAddr); ok && fa.X == ssa.Value(recv) {
+					bad = p.Pos(st.Pos())
+				}
+			})
+			c.Check(bad == "", "R07.8", key, p.Pos(fn.Pos()), "no field of the receiver is written",
+				fmt.Sprintf("%s stores into a field of its receiver at %s: a view is a value fixed when it is built — state cached in it lazily (the converted root) is carried into every view derived from it by copy afterwards, so a Sub view of a file system that was already used resolves names against the parent's directory", fname(fn), bad))
+		}
+	}
+	if cnt < 10 {
+		c.Hard("anchor: methods of the view types (found %d)", cnt)
 	}
 }
